@@ -32,6 +32,12 @@ def scenarios(quick):
         fns = [[fn(d, "R0", "E2", True) for d in ds] + [fn(1, "R1")] * 2]
         out.append(scenario([retry(1, dly=1), hg(1, D, c=[cR("R1")])], fns, [start(1)]))
         out.append(scenario([retry(1, dly=3), hg(1, D, c=[cR("R1")], delays=[1, 2])], fns, [start(1)]))
+    from seq import cT
+    for ds in itertools.product([0, 1, 3], repeat=2):
+        for e1, e2 in (("TV", "E1"), ("E1", "TV"), ("TP", "TV")):
+            fns = [[fn(ds[0], "R0", e1, True), fn(ds[1], "R0", e2, True), fn(1, "R1")]]
+            out.append(scenario([hg(1, D, c=[cT("TV")])], fns, [start(1)]))
+            out.append(scenario([hg(1, D, c=[cT("TP"), cR("R1")])], fns, [start(1)]))
     for ds in itertools.product([0, 1, 3], repeat=2):
         for e1, e2 in (("E1", "E2"), ("E2", "E1"), ("E3", "E1")):
             fns = [[fn(ds[0], "R0", e1, True), fn(ds[1], "R0", e2, True), fn(1, "R1")]]
